@@ -1107,6 +1107,11 @@ Proof.
     destruct (nth_error (crec ctx) k) as [a|]; [exact (IH _ _ _ _ _ _ H Hinv) | trivial_res H].
   - (* Pratt *)
     exact (proj1 (pratt_refines _ _ IH m g ops ctx n) _ _ _ _ H Hinv).
+  - (* GroupArr *)
+    eapply (group_loop_refines _ _ IH) with (acce := []) in H; eauto.
+    + now rewrite app_nil_r.
+  - (* NestedIn: not available in the configuration the theorem is about *)
+    cbn [nested no_quirks] in H. trivial_res H.
 Qed.
 
 End Refine.
